@@ -27,6 +27,7 @@ THEOREMS = [
     "Nix.C09.not_scalable_all_powers",
     "Nix.C09.compound_all_powers",
     "Nix.C09.scaling_shape",
+    "Nix.C09.recognition_shape",
     "Nix.C09.scaling_shape_ratio",
     "Nix.C09.split_captures",
     "Nix.C09.scaling_total_exact",
